@@ -81,7 +81,7 @@ type origin struct {
 func originOf(p *Prog, fi *FuncInfo, e ast.Expr, depth int) []origin {
 	info := fi.Pkg.TypesInfo
 	e = ast.Unparen(e)
-	if depth > 4 {
+	if depth > 12 {
 		return []origin{{other: exprStr(e)}}
 	}
 	if tv, ok := info.Types[e]; ok && tv.Value != nil {
